@@ -2,6 +2,7 @@
 wins; the returned mapping is a fresh copy (aliasing half: snapshot test)."""
 import copy
 import itertools
+import time
 import random
 
 from .. import coqterm as ct
@@ -193,7 +194,13 @@ class C17(Prop):
                 kinds.add("dsub" if dsub else "depth%d" % min(depth, 3))
         return "+".join(sorted(kinds)) or "no-names"
 
+    _shrink_t0 = None
+
     def shrink_candidates(self, case):
+        if self._shrink_t0 is None:
+            self._shrink_t0 = time.time()
+        if time.time() - self._shrink_t0 > 75:     # bounded shrinking wall time
+            return
         names = case["names"]
         if len(names) > 1:
             for i in range(len(names)):
